@@ -89,6 +89,41 @@ impl TG<'_> {
             let (a, av) = self.gen(depth - 1);
             return if self.rng.random_bool(0.75) { (format!("-{a}"), av.map(|r| Rat { n: -r.n, d: r.d })) } else { (format!("+{a}"), av) };
         }
+        if self.rng.random_bool(0.15) {
+            // one level without inner parentheses: `1 / x / z`, `a * b / c * d`, `a - b + c - d` (left to right among equal
+            // priorities); operands are atoms or parenthesised sub-expressions, a literal 1 often comes first
+            let k = self.rng.random_range(2..=4);
+            let muldiv = self.rng.random_bool(0.6);
+            let mut text = String::new();
+            let mut acc: Option<Rat> = None;
+            for j in 0..k {
+                let (a, av) = if j == 0 && self.rng.random_bool(0.3) {
+                    ("1".to_string(), Some(Rat::int(1)))
+                } else if self.rng.random_bool(0.3) {
+                    let (a, av) = self.gen(depth - 1);
+                    (format!("({a})"), av)
+                } else {
+                    self.gen(0)
+                };
+                if j == 0 {
+                    text = a;
+                    acc = av;
+                    continue;
+                }
+                let second = self.rng.random_bool(0.5);
+                if muldiv {
+                    match av {
+                        Some(b) if b.n != 0 && second => { text = format!("{text} / {a}"); acc = acc.and_then(|x| rdiv(x, b)).filter(|v| small(*v)); }
+                        _ => { text = format!("{text} * {a}"); acc = acc.zip(av).and_then(|(x, y)| rmul(x, y)).filter(|v| small(*v)); }
+                    }
+                } else if second {
+                    text = format!("{text} - {a}"); acc = acc.zip(av).and_then(|(x, y)| rsub(x, y)).filter(|v| small(*v));
+                } else {
+                    text = format!("{text} + {a}"); acc = acc.zip(av).and_then(|(x, y)| radd(x, y)).filter(|v| small(*v));
+                }
+            }
+            return (format!("({text})"), acc);
+        }
         let (l, lv) = self.gen(depth - 1);
         let (r, rv) = self.gen(depth - 1);
         let both = lv.zip(rv);
@@ -272,7 +307,7 @@ fn ops(rng: &mut StdRng, with: &[&str]) -> Value {
 
 /// operator application / substitution on expressions with many variables (merged lists beyond the inline capacity of 16)
 fn manyvars(rng: &mut StdRng) -> Value {
-    if rng.random_bool(0.2) {
+    if rng.random_bool(0.05) {       // ~10 s of TLC per session: a handful per stream
         return hugevars(rng);
     }
     let mut pool: Vec<String> = vec![];
@@ -360,6 +395,40 @@ fn dvars(rng: &mut StdRng) -> Value {
     json!({"seeds": seeds, "steps": steps, "tag": "dvars"})
 }
 
+/// immutability of pool entries: long one-level expressions (more operators than any inline capacity) are cloned and the
+/// clone is changed (substitution by numbers so that folding shortens it, conversion, operator application, differentiation);
+/// at the end every entry is observed once more (`final`)
+fn immut(rng: &mut StdRng) -> Value {
+    let mut seeds = vec![];
+    for form in ["deep", "flat", "deep"] {
+        seeds.push(json!({"text": cps(&chain_seed(rng)), "form": form}));
+    }
+    for t in ["3", "2", "x+1"] {
+        seeds.push(json!({"text": cps(t), "form": if rng.random_bool(0.5) { "flat" } else { "deep" }}));
+    }
+    let mut size = seeds.len();
+    let mut steps = vec![];
+    for _ in 0..rng.random_range(2..=5) {
+        let i = if rng.random_bool(0.7) { rng.random_range(1..=3) } else { size };
+        let st = match rng.random_range(0..8) {
+            0 | 1 | 2 | 3 => {
+                let mut ns = vec!["x", "y", "z", "a", "b"];
+                ns.shuffle(rng);
+                ns.truncate(rng.random_range(1..=4));
+                let m: Vec<Value> = ns.iter().map(|n| json!([cps(n), rng.random_range(4..=5)])).collect();
+                json!({"act": "subs", "i": i, "map": m})
+            }
+            4 => json!({"act": if rng.random_bool(0.5) { "to_deep" } else { "to_flat" }, "i": i}),
+            5 => json!({"act": "partial", "i": i, "k": 0}),
+            6 => json!({"act": "op_un", "i": i, "name": cps("-")}),
+            _ => json!({"act": "op_bin", "i": i, "j": rng.random_range(4..=6), "name": cps(["+", "*", "-"].choose(rng).unwrap())}),
+        };
+        steps.push(st);
+        size += 1;
+    }
+    json!({"seeds": seeds, "steps": steps, "tag": "immut", "final": true})
+}
+
 /// more variables than any fixed-width bookkeeping has bits for (129..200 distinct names in one expression): partial
 /// substitution maps (some names replaced, some kept), conversion and operator application on the result
 fn hugevars(rng: &mut StdRng) -> Value {
@@ -380,7 +449,7 @@ fn hugevars(rng: &mut StdRng) -> Value {
     }
     let mut size = seeds.len();
     let mut steps = vec![];
-    for _ in 0..rng.random_range(1..=3) {
+    for _ in 0..rng.random_range(1..=2) {
         let i = if rng.random_bool(0.7) { 1 } else { size };
         let st = match rng.random_range(0..6) {
             0 | 1 | 2 | 3 => {
@@ -455,6 +524,14 @@ fn valdiff(rng: &mut StdRng) -> Value {
         if depth == 0 || rng.random_bool(0.3) {
             return body;
         }
+        // "ramp" pieces (`x if x > 0 else 0`, `x + 3 if ... else 2`): slope exactly one in the selected branch, a constant in the other
+        let ramp = rng.random_bool(0.2);
+        let body = if ramp {
+            let v = &vars.choose(rng).unwrap().0;
+            match rng.random_range(0..3) { 0 => v.clone(), 1 => format!("{v} + {}", rng.random_range(1..4)), _ => format!("{} + {v}", rng.random_range(1..4)) }
+        } else {
+            body
+        };
         // condition: polynomial cmp polynomial, strictly decided at the point
         for _ in 0..10 {
             let (l, lv) = TG { rng, vars: vars.to_vec(), p_fn: 0.0 }.gen(1);
@@ -465,7 +542,7 @@ fn valdiff(rng: &mut StdRng) -> Value {
             if let (Some(a), Some(b)) = (lv, rv) {
                 if a != b {
                     let cmp = *[">", "<", ">=", "<=", "==", "!="].choose(rng).unwrap();
-                    let other = piece(rng, vars, depth - 1, fns);
+                    let other = if ramp { format!("{}", rng.random_range(0..3)) } else { piece(rng, vars, depth - 1, fns) };
                     // half of the conditions without parentheses around the operands: arithmetic and comparison then share
                     // one nesting level of the deep form (`x - 1 > 0`)
                     fn strip_outer(s: &str) -> &str {
@@ -597,6 +674,7 @@ pub fn main(args: &[String]) -> i32 {
             "advnames" => advnames(&mut rng),
             "manyvars" => manyvars(&mut rng),
             "dvars" => dvars(&mut rng),
+            "immut" => immut(&mut rng),
             "floatcomp" => floatcomp(&mut rng),
             "valdiff" => valdiff(&mut rng),
             _ => ops(&mut rng, &["op", "std", "conv", "subs", "print", "partial"]),
